@@ -540,7 +540,7 @@ func vRandomMap(rng *rand.Rand) (regs []vRegion, ks, ke uint64, ok bool) {
 		cur = 0
 	}
 	n := 1 + rng.Intn(6)
-	var avail []int
+	var avail, tails []int
 	for i := 0; i < n; i++ {
 		if rng.Intn(2) == 0 {
 			cur += uint64(rng.Intn(3)) * 0x1000
@@ -578,8 +578,23 @@ func vRandomMap(rng *rand.Rand) (regs []vRegion, ks, ke uint64, ok bool) {
 		if typ == 1 && last > first {
 			avail = append(avail, len(regs))
 		}
+		if typ == 1 && (cur+ln)&4095 != 0 && last >= cur {
+			tails = append(tails, len(regs)) // a page-aligned address lies inside the region's trailing partial page
+		}
 		regs = append(regs, vRegion{cur, ln, typ})
 		cur += ln
+	}
+	if len(tails) > 0 && (len(avail) == 0 || rng.Intn(6) == 0) {
+		// the image starts (page aligned) in the trailing partial page of an available region, which may hold no whole
+		// frame at all or be smaller than a page
+		kr := regs[tails[rng.Intn(len(tails))]]
+		end := kr.addr + kr.length
+		ks = end &^ 4095
+		ke = ks + 1 + uint64(rng.Intn(int(end-ks)))
+		if rng.Intn(3) == 0 {
+			ke = end
+		}
+		return regs, ks, ke, true
 	}
 	if len(avail) == 0 {
 		return nil, 0, 0, false
